@@ -28,6 +28,7 @@ import (
 	"github.com/internetarchive/Zeno/internal/pkg/source/hq"
 	"github.com/internetarchive/Zeno/internal/pkg/stats"
 	"github.com/internetarchive/Zeno/internal/pkg/utils"
+	"github.com/internetarchive/Zeno/internal/pkg/verifhook"
 	"github.com/internetarchive/Zeno/pkg/models"
 )
 
@@ -113,11 +114,14 @@ func (p *preprocessor) worker(workerID string) {
 			return
 		case <-controlChans.PauseCh:
 			logger.Debug("received pause event")
+			verifhook.At("pause.ack", "pre."+workerID)
 			controlChans.ResumeCh <- struct{}{}
+			verifhook.At("pause.resumed", "pre."+workerID)
 			logger.Debug("received resume event")
 		case seed, ok := <-p.inputCh:
 			if ok {
 				logger.Debug("received seed", "seed", seed.GetShortID())
+				verifhook.AtKV("pre.recv", seed.GetID(), "pre."+workerID, 0)
 
 				if err := seed.CheckConsistency(); err != nil {
 					panic(fmt.Sprintf("seed consistency check failed with err: %s, seed id %s, worker_id %s", err.Error(), seed.GetShortID(), workerID))
@@ -128,6 +132,7 @@ func (p *preprocessor) worker(workerID string) {
 				}
 
 				preprocess(workerID, seed)
+				verifhook.AtItem("pre.forward", seed)
 
 				select {
 				case <-p.ctx.Done():
